@@ -5,8 +5,10 @@ import (
 	"crypto/x509"
 	"fmt"
 	"github.com/google/go-tdx-guest/abi"
+	"github.com/google/go-tdx-guest/pcs"
 	"github.com/google/go-tdx-guest/verify/trust"
 	"hash/crc32"
+	"math/big"
 	"strings"
 	"testing"
 
@@ -256,6 +258,32 @@ func optionsPrehistory(raw []byte, o *verify.Options, kind int, pre trust.HTTPSG
 		call("raw(genuine, every download fails)", func() error { return verify.RawTdxQuote(raw, o) })
 		report()
 		o.Getter = pre
+	}
+	// what the caller did with values the API returned before: the PCK chain extracted from the quote (serial numbers
+	// changed in place and by assignment - say, blanked for a log line) and the leaf's extension values (overwritten).
+	// Returned values are the caller's; nothing the library uses later may be reachable through them.
+	if msg != nil {
+		if ch, err := verify.ExtractChainFromQuote(msg); err == nil && ch != nil {
+			for _, c := range []*x509.Certificate{ch.PCKCertificate, ch.IntermediateCertificate, ch.RootCertificate} {
+				if c != nil && c.SerialNumber != nil {
+					c.SerialNumber.Add(c.SerialNumber, big.NewInt(1))
+					c.SerialNumber = big.NewInt(7)
+					c.NotAfter = c.NotAfter.AddDate(50, 0, 0)
+				}
+			}
+			if ch.PCKCertificate != nil {
+				if ext, err := pcs.PckCertificateExtensions(ch.PCKCertificate); err == nil && ext != nil {
+					for i := range ext.TCB.CPUSvnComponents {
+						ext.TCB.CPUSvnComponents[i] = 0xff
+					}
+					for i := range ext.TCB.CPUSvn {
+						ext.TCB.CPUSvn[i] = 0xff
+					}
+					ext.TCB.PCESvn, ext.FMSPC, ext.PCEID = 0xffff, "ffffffffffff", "ffff"
+				}
+			}
+			did = append(did, "returned chain and extension values overwritten")
+		}
 	}
 	switch kind {
 	case 1:
